@@ -196,9 +196,37 @@ def check(ctx):
     um_nf = str(Fs_.at(ts[0], ast.Name(id="uniform_m", ctx=ast.Load())))
     ctx.check(um_nf == "(all([(_b0 == m_or_counters[0]) for _b0 in m_or_counters]) or isinstance(m_or_counters, int))", R, scp, "uniform copies",
               "uniform copies: a single m, or a counter list whose entries are all equal", "the uniform-copies test of sum_combination_products changed")
-    body = ast.unparse(scp.node)
-    ctx.check("for i in range(0, solution_count):" in body and "prod *= shapes[p]" in body and "s += prod" in body and
-              "compute_jth_prefix_of_permutations_with_copies(crossing_size, m_or_counters, first_n, i, pmemo)" in body, R, scp, "general case sums over arrangements",
+    # general case, by role: an outer loop over every arrangement index 0..solution_count-1, the arrangement unranked with the same
+    # counters, an inner product of shapes[p] over its positions, accumulated (+=) into the value that is returned
+    ok_general = False
+    for lp in [x for x in statements(scp.node) if isinstance(x, ast.For) and isinstance(x.target, ast.Name)]:
+        it = ast.unparse(lp.iter).replace(" ", "")
+        if it not in ("range(0,solution_count)", "range(solution_count)"):
+            continue
+        iv = lp.target.id
+        unr = [x for x in lp.body if isinstance(x, ast.Assign) and isinstance(x.value, ast.Call) and dotted(x.value.func) == "compute_jth_prefix_of_permutations_with_copies"]
+        if len(unr) != 1 or not isinstance(unr[0].targets[0], ast.Name):
+            continue
+        a_ = [str(Fs_.at(unr[0], y)) for y in unr[0].value.args]
+        perm = unr[0].targets[0].id
+        inner = [x for x in lp.body if isinstance(x, ast.For) and dotted(x.iter) == perm and isinstance(x.target, ast.Name)]
+        if len(inner) != 1 or len(inner[0].body) != 1:
+            continue
+        mul = inner[0].body[0]
+        pv = inner[0].target.id
+        if not (isinstance(mul, ast.AugAssign) and isinstance(mul.op, ast.Mult) and isinstance(mul.target, ast.Name) and ast.unparse(mul.value) == "shapes[%s]" % pv):
+            continue
+        prodv = mul.target.id
+        init1 = [x for x in lp.body if isinstance(x, ast.Assign) and dotted(x.targets[0]) == prodv and ast.unparse(x.value) == "1"]
+        adds = [x for x in lp.body if isinstance(x, ast.AugAssign) and isinstance(x.op, ast.Add) and isinstance(x.target, ast.Name) and dotted(x.value) == prodv]
+        if len(init1) != 1 or len(adds) != 1:
+            continue
+        accv = adds[0].target.id
+        rets_ = [x for x in statements(scp.node) if isinstance(x, ast.Return) and dotted(x.value) == accv]
+        zero = [x for x in statements(scp.node) if isinstance(x, ast.Assign) and dotted(x.targets[0]) == accv and ast.unparse(x.value) == "0"]
+        if a_ == ["len(self._crossing_instances)", "m_or_counters", "first_n", iv, "pmemo"] and rets_ and zero:
+            ok_general = True
+    ctx.check(ok_general, R, scp, "general case sums over arrangements",
               "otherwise the count is the sum over all arrangements of the product of their completions", "the general case of sum_combination_products changed")
 
     mod = sys.modules[__name__]
